@@ -38,7 +38,13 @@ void mmd_parse_token_chain__contract(mmd_engine * e, token * chain)
 	__CPROVER_requires(1)
 	__CPROVER_ensures(e->metadata_stack->size == __CPROVER_old(e->metadata_stack->size) + g_parsed)
 	__CPROVER_assigns(e->recurse_depth ALL_SIZES(ASSIGN_SIZE));
-void mmd_engine_free__contract(mmd_engine * e, bool freeDString) __CPROVER_requires(1) __CPROVER_ensures(1) __CPROVER_assigns();
+/* the temporary engine only BORROWED the nine stack sizes (its element arrays hold nothing): freeing it with a non-zero size would make
+ * mmd_engine_reset pop and free uninitialised pointers -- so "every stack of the engine handed to mmd_engine_free is empty" is the
+ * callee's precondition, checked at the call site */
+void mmd_engine_free__contract(mmd_engine * e, bool freeDString)
+	__CPROVER_requires(e->abbreviation_stack->size == 0 && e->citation_stack->size == 0 && e->definition_stack->size == 0 && e->footnote_stack->size == 0
+		&& e->glossary_stack->size == 0 && e->header_stack->size == 0 && e->link_stack->size == 0 && e->metadata_stack->size == 0 && e->table_stack->size == 0)
+	__CPROVER_ensures(1) __CPROVER_assigns();
 #endif
 
 #define NMETA 2
